@@ -19,9 +19,9 @@ def lname(r, mx=8):
 def mname(r): return r.choice("ABCDEFGHIJKLMNOPQRSTUVWXYZ") + ''.join(r.choice("ABCDEFGHIJKLMNOPQRSTUVWXYZ0123456789_") for _ in range(r.randint(0,6)))
 BASE_T = ["int","char","short","long","float","double","unsigned int","unsigned char","long long","size_t","t_list","struct s_node"]
 def intc(r):
-    x = intc0(r)
-    while len(x)>3 and x[:2] in ("0x","0X") and x[2] in "bB" and x[3] in "0123456789": x = intc0(r)
-    return x
+    # the shape K1 (0[xX][bB]+[0-9]...: 0xb3ba) used to be avoided here because the tool mis-split it; it is repaired in the
+    # source (Prefix alternative 0[xX](?=[\da-fA-F])), so such constants are generated like every other one
+    return intc0(r)
 def intc0(r):
     k = r.randint(0,5)
     suf = r.choice(["","","","u","U","l","L","ul","UL","ll","LL","ull","lu","uz"])
